@@ -1,10 +1,14 @@
 #!/usr/bin/env python3
 """Developer helper: author a seeded variant.
-usage: mkpatch.py <name> <property> <expected-key-substring> <file> <old> <new> [<file> <old> <new> ...]
+usage: mkpatch.py [--base <benign-variant>] <name> <property> <expected-key-substring> <file> <old> <new> [<file> <old> <new> ...]
 Creates controls/patches/<name>.patch and registers it in controls/controls.json.
 """
 import json, os, shutil, subprocess, sys, tempfile
 HERE = os.path.dirname(os.path.abspath(__file__))
+base = None
+if sys.argv[1] == "--base":      # start from a behaviour-preserving variant (controls/benign/<x>.patch): the mutant is written in its idiom
+    base = os.path.join(HERE, "benign", sys.argv[2] + ".patch")
+    del sys.argv[1:3]
 name, prop, expect = sys.argv[1:4]
 edits = sys.argv[4:]
 assert len(edits) % 3 == 0 and edits
@@ -13,6 +17,8 @@ try:
     a = os.path.join(tmp, "a"); b = os.path.join(tmp, "b")
     for d in (a, b):
         subprocess.check_call(["rsync", "-a", "--exclude", "target", "--exclude", ".git", "/repo/", d + "/"])
+    if base:
+        subprocess.check_call(["patch", "-p1", "-s", "-i", base], cwd=b)
     for i in range(0, len(edits), 3):
         f, old, new = edits[i:i+3]
         p = os.path.join(b, f)
